@@ -112,7 +112,7 @@ CLAIMS = {
         "nodes, the integrals being the opaque quadratures of the kernels whose folded closed form is z/xi, 1-z, z ln(1/z)/xi convolved with the "
         "right structure function; xi, rho, mu and shifted kinematics equal their definitions; the result carries the requested x, Q2; integral "
         "coefficients vanish and the F(xi) coefficient tends to 1 as M -> 0; with a target mass of exactly 0 the corrected operator is the "
-        "uncorrected one; the corrected operator does not depend on other observables sharing its kinematics objects. A request whose Nachtmann point lies below the first grid node ends in an explicit rejection in every mode (concrete kinematics). NOT decided: quadrature accuracy.",
+        "uncorrected one; the corrected operator does not depend on other observables sharing its kinematics objects. A request whose Nachtmann point lies below the first grid node ends in an explicit rejection in every mode (concrete kinematics); a point requested after another Q2 at the same x equals the point requested alone. NOT decided: quadrature accuracy.",
         "Trusted: CPython ast; yadsa partial evaluator; the literature formulas written in rules/c10.py (not taken from the code); yadism's F3 "
         "is xF3 and g1 is 2xg1 (C02.lo).",
         "DESIGN.md section 3, C10",
@@ -135,7 +135,7 @@ CLAIMS = {
         "c,b,t with origin (Q0^2, nf0), nf_default is evaluated exactly once per point with that point's Q2 and that atlas, ZM-VFNS operators are "
         "identical for different NfFF and free of mass/threshold symbols, no operator contains threshold-ratio symbols, every beta coefficient "
         "of the scale-variation terms is evaluated at that same nf; the installed eko source has nf = 2 + digitize(Q2, [0]+scales+[inf]) with "
-        "right=False (scale^2 <= Q2 counts as active); within one runner every point - after points of other flavour regions, with either variation alone, or 1e-12 away from another requested point across a matching scale - carries the terms of its own number of flavours. NOT decided: floating-point behaviour one ulp around a threshold.",
+        "right=False (scale^2 <= Q2 counts as active); within one runner every point - after points of other flavour regions, with either variation alone, or 1e-12 away from another requested point across a matching scale - carries the terms of its own number of flavours; in fixed-flavour schemes no quark beyond NfFF feeds a flavour-tagged operator. NOT decided: floating-point behaviour one ulp around a threshold.",
         "Trusted: CPython ast; yadsa partial evaluator; eko.matchings (audited structurally each run); mc kc < mb kb < mt kt.",
         "DESIGN.md section 3, C06",
     ),
